@@ -295,8 +295,41 @@ func shortString(s string) []byte {
 
 var c17Hostile = []string{"\"", "\"\"", "\"\"\"", "'", "", " ", "\x00", "a\x00b", "\"a", "a\"", "\"\"\"\"", strings.Repeat("k", 70000)[:65535], "\xff\xfe", "システム", "system", "SYSTEM", "\"system\"", "system.local", ";", "--", "/*", "$$", "ks; DROP", "\n", "\"\n\""}
 
+// c17SysRows: malformed rows in the answers to the proxy's OWN system-table queries.  The control connection is dropped;
+// the proxy reconnects it (after its reconnect delay of about two seconds) and reads system.local / system.peers again, now
+// malformed.  One proxy process per shape, all at once.
+func c17SysRows(ctx *Ctx) {
+	shapes := []string{1: "system.local row with a null rpc_address", 2: "system.local row with a null data_center",
+		3: "system.local row with rpc_address 0.0.0.0", 4: "system.local row with a three-byte rpc_address", 5: "system.local answered with zero rows",
+		6: "system.local answered with a VOID result", 7: "system.local row with a null partitioner", 8: "system.peers rows with a null rpc_address",
+		9: "system.peers rows with a null data_center", 10: "system.local answered with two rows"}
+	procs := map[int]*c17Proc{}
+	for mode := 1; mode < len(shapes); mode++ {
+		procs[mode] = startC17(c17Cfgs[0])
+	}
+	for mode, p := range procs {
+		p.be.SetSysHostile(mode)
+		p.be.DropRegistered()
+	}
+	time.Sleep(2800 * time.Millisecond)
+	for _, p := range procs {
+		p.be.SetSysHostile(0)
+		p.be.DropRegistered()
+	}
+	deadline := time.Now().Add(6 * time.Second)
+	for mode := 1; mode < len(shapes); mode++ {
+		p := procs[mode]
+		for p.be.ControlReady() == 0 && time.Now().Before(deadline) && p.alive() {
+			time.Sleep(20 * time.Millisecond)
+		}
+		p.verdict(ctx, 13, shapes[mode], true, "hostile-system-table-rows")
+		p.stop()
+	}
+}
+
 func genC17(ctx *Ctx) {
 	r := ctx.Rng
+	c17SysRows(ctx)
 	for ci, cfg := range c17Cfgs {
 		p := startC17(cfg)
 		full := ci == 0 || ctx.Thorough
